@@ -346,8 +346,43 @@ fn family_extreme(t: &mut Tape) -> String {
     }
 }
 
+/// POUs composed as text from the IEC declaration productions (also what the AST cannot hold),
+/// optionally with line-level mutations
+fn family_text_decl(t: &mut Tape) -> String {
+    let cell = crate::textgrid::random_unit(t);
+    if t.ratio(1, 2) {
+        return cell.text;
+    }
+    let mut lines: Vec<String> = cell.text.lines().map(String::from).collect();
+    for _ in 0..(1 + t.below(3)) {
+        if lines.is_empty() {
+            break;
+        }
+        let i = t.below(lines.len());
+        match t.below(4) {
+            0 => {
+                lines.remove(i);
+            }
+            1 => {
+                let c = lines[i].clone();
+                lines.insert(i, c);
+            }
+            2 => {
+                let j = t.below(lines.len());
+                lines.swap(i, j);
+            }
+            _ => {
+                let w = *t.pick(SOUP);
+                lines[i] = format!("{} {}", lines[i], w);
+            }
+        }
+    }
+    lines.join("\n") + "\n"
+}
+
 pub fn gen_input(t: &mut Tape, gates: &Gates) -> (String, &'static str) {
-    let (s, fam) = match t.below(10) {
+    let (s, fam) = match t.below(11) {
+        10 => (family_text_decl(t), "text-declarations"),
         0 => (family_bytes(t), "bytes"),
         1 | 2 => (family_soup(t), "token-soup"),
         3 | 4 | 5 => (family_mutated(t, gates, false), "mutated-syntactic"),
@@ -471,6 +506,10 @@ fn corpus() -> Vec<String> {
             }
         }
     }
+    // the exhaustive text-first declaration grid (POU kind x block header x declaration form)
+    for c in crate::textgrid::cells() {
+        v.push(c.text);
+    }
     v
 }
 
@@ -481,7 +520,7 @@ pub fn run(ctx: &Ctx) -> i32 {
         ctx.tier,
         ctx.seed,
         "exploration",
-        "inputs <= 64 KiB, nesting <= 12: arbitrary bytes (decoded like the CLI: UTF-8 else Windows-1252), token soup over every keyword / operator / literal shape, generated programs (syntactic and valid generators) with 1..8 token-level mutations (delete, duplicate, swap, replace, truncate, unbalance), extreme literals (magnitudes 2^k-1, 2^k, 10^k, long fractions / underscore runs) in every position that converts a number, deep nesting of parentheses / IF / calls; plus the repository's fixtures. Each input runs in a worker process through tokenize, parse, analyze, render, re-parse of the rendering: no panic, no abort / signal, CPU time per case <= 20 s (3/3 reproduction). Non-trivial: input reached the parser or has >= 3 tokens; distinct by input text.",
+        "inputs <= 64 KiB, nesting <= 12: arbitrary bytes (decoded like the CLI: UTF-8 else Windows-1252), token soup over every keyword / operator / literal shape, generated programs (syntactic and valid generators) with 1..8 token-level mutations (delete, duplicate, swap, replace, truncate, unbalance), extreme literals (magnitudes 2^k-1, 2^k, 10^k, long fractions / underscore runs) in every position that converts a number, deep nesting of parentheses / IF / calls, POUs composed as text from every block header x declaration form (with line mutations); plus the repository's fixtures and the exhaustive text-first declaration grid. Each input runs in a worker process through tokenize, parse, analyze, render, re-parse of the rendering: no panic, no abort / signal, CPU time per case <= 20 s (3/3 reproduction). Non-trivial: input reached the parser or has >= 3 tokens; distinct by input text.",
     );
     let gates = ctx.gates_for("C04");
     let off = gates.off_list();
